@@ -5,7 +5,7 @@ import time
 
 from . import common as C
 
-ALL_LISTS = ["P1", "P2", "P3", "P4", "P5", "P6", "P7", "P8", "P9", "P10", "P11", "P12", "F1", "F2", "F3", "F4", "F5", "F6", "F7", "F8", "F9", "F10", "F11", "V1", "V2", "V3", "V4", "V5", "V6", "V7",
+ALL_LISTS = ["P1", "P2", "P3", "P4", "P5", "P6", "P7", "P8", "P9", "P10", "P11", "P12", "P13", "F1", "F2", "F3", "F4", "F5", "F6", "F7", "F8", "F9", "F10", "F11", "F12", "V1", "V2", "V3", "V4", "V5", "V6", "V7",
              "V8", "V9", "V10", "V11", "V12", "V13", "V14", "V15", "V16", "M1", "M2", "M3", "M4"]
 TRACKED = ["P3", "P4", "P5", "P8", "P12", "F11", "F3", "F4", "F5", "F6", "F9", "V3", "V4", "V7", "V9", "V10", "V12", "V16", "M2", "M3"]
 # lists of trivial value types for the "never clobbered alive" clause of C06 (observable through the values only)
